@@ -176,6 +176,12 @@ def run(chk):
     cases.append(("self-miter::names containing c0_ / c1_", cS, None, None, None))
     cases.append(("self-miter::names containing c0_ / c1_::one tied startpoint", cS, None, {"c0_n"}, None))
     cases.append(("self-miter::plain", cH, None, None, None))
+    # endpoints that are buffers of one net in the first circuit; the second circuit differs at exactly one of them (each in turn)
+    alias_ = {"a": ("input", []), "b": ("input", []), "g": ("and", ["a", "b"]), "w": ("buf", ["g"]), "o0": ("buf", ["g"]), "o1": ("buf", ["g"]), "o2": ("buf", ["w"]), "o3": ("buf", ["w"])}
+    cAl = build(alias_, outputs=["o0", "o1", "o2", "o3"])
+    for o_ in ("o0", "o1", "o2", "o3"):
+        cases.append((f"aliased-endpoints::the second circuit inverts {o_}", cAl, retyped(cAl, o_, "not"), None, None))
+    cases.append(("aliased-endpoints::equal", cAl, build(alias_, outputs=["o0", "o1", "o2", "o3"]), None, None))
     # self-miters with only some startpoints tied: a difference fed by an untied startpoint has to reach endpoints many levels away
     # (chains numbered upwards, downwards and by name: whatever order a set of the nodes is walked in, it is not topological for all)
     for style_, namer_ in (("upwards", lambda j_, i_: f"n{j_}_{i_}"), ("downwards", lambda j_, i_: f"n{j_}_{9 - i_}"), ("words", lambda j_, i_: ("alpha", "kilo", "bravo", "zulu", "echo", "mike")[i_] + str(j_))):
